@@ -384,21 +384,31 @@ func (obj *Real32) MarshalJSON() ([]byte, error) {
 func (obj *Real32) UnmarshalJSON(data []byte) error {
   r := struct{Value float32; Derivative []float32; Hessian [][]float32}{}
   if err := json.Unmarshal(data, &r); err == nil {
-    obj.Value = r.Value
-    if len(r.Derivative) != 0 && len(r.Hessian) != 0 {
-      if len(r.Derivative) != len(r.Derivative) {
+    n := len(r.Derivative)
+    if len(r.Hessian) != 0 {
+      if n != 0 && n != len(r.Hessian) {
         return fmt.Errorf("invalid json scalar representation")
       }
-      obj.Alloc(len(r.Derivative), 2)
+      n = len(r.Hessian)
+      for i := 0; i < n; i++ {
+        if len(r.Hessian[i]) != n {
+          return fmt.Errorf("invalid json scalar representation")
+        }
+      }
+    }
+    obj.Value = r.Value
+    if len(r.Derivative) != 0 && len(r.Hessian) != 0 {
+      obj.Alloc(n, 2)
       obj.Derivative = r.Derivative
       obj.Hessian = r.Hessian
     } else
     if len(r.Derivative) != 0 && len(r.Hessian) == 0 {
-      obj.Alloc(len(r.Derivative), 1)
+      obj.Alloc(n, 1)
       obj.Derivative = r.Derivative
     } else
     if len(r.Derivative) == 0 && len(r.Hessian) != 0 {
-      obj.Alloc(len(r.Derivative), 2)
+      obj.Alloc(n, 2)
+      obj.Derivative = make([]float32, n)
       obj.Hessian = r.Hessian
     }
     return nil
